@@ -34,6 +34,8 @@ import (
 	"github.com/Nextdoor/pg-bifrost.git/transport"
 	"github.com/Nextdoor/pg-bifrost.git/transport/batch"
 	"github.com/Nextdoor/pg-bifrost.git/transport/batcher"
+	"github.com/Nextdoor/pg-bifrost.git/utils"
+	"github.com/Shopify/sarama"
 	tkafka "github.com/Nextdoor/pg-bifrost.git/transport/transporters/kafka"
 	tkinesis "github.com/Nextdoor/pg-bifrost.git/transport/transporters/kinesis"
 	kintr "github.com/Nextdoor/pg-bifrost.git/transport/transporters/kinesis/transporter"
@@ -509,10 +511,127 @@ func plumbingDDReport(w []string) (res string) {
 	return fmt.Sprintf("lines=%d %s", len(got), strings.Join(got, ","))
 }
 
+type plumbReporter struct{ errs []string }
+
+func (r *plumbReporter) Error(a ...interface{})            { r.errs = append(r.errs, fmt.Sprint(a...)) }
+func (r *plumbReporter) Errorf(f string, a ...interface{}) { r.errs = append(r.errs, fmt.Sprintf(f, a...)) }
+func (r *plumbReporter) Fatal(a ...interface{})            { r.errs = append(r.errs, fmt.Sprint(a...)) }
+func (r *plumbReporter) Fatalf(f string, a ...interface{}) { r.errs = append(r.errs, fmt.Sprintf(f, a...)) }
+
+// plumbing kafkaput <accept|reject>: the Kafka sink end to end as its factories build it - option map → kafka.New (the
+// real sarama sync producer with the repository's producer configuration) → sarama's MockBroker speaking the wire
+// protocol, which answers every produce request for the partition with success or with MESSAGE_TOO_LARGE.
+// Observed: how many batches the worker reported written and whether it raised the termination signal.
+func plumbingKafkaPut(w []string) (res string) {
+	defer func() {
+		if r := recover(); r != nil {
+			res = fmt.Sprintf("panic %v", r)
+		}
+	}()
+	rep := &plumbReporter{}
+	broker := sarama.NewMockBroker(rep, 1)
+	defer broker.Close()
+	kerr := sarama.ErrNoError
+	if w[2] == "reject" {
+		kerr = sarama.ErrMessageSizeTooLarge
+	}
+	broker.SetHandlerByMap(map[string]sarama.MockResponse{
+		"ApiVersionsRequest": sarama.NewMockApiVersionsResponse(rep),
+		"MetadataRequest":    sarama.NewMockMetadataResponse(rep).SetBroker(broker.Addr(), broker.BrokerID()).SetLeader("verif-topic", 0, broker.BrokerID()),
+		"ProduceRequest":     sarama.NewMockProduceResponse(rep).SetVersion(3).SetError("verif-topic", 0, kerr),
+	})
+	host, port, err := net.SplitHostPort(broker.Addr())
+	if err != nil {
+		return "harness-error " + err.Error()
+	}
+	cfg := kafkaTransportConfig("verif-topic", 1000000, 10, 1, "transaction-constant")
+	cfg[tkafka.ConfVarBootstrapHost], cfg[tkafka.ConfVarBootstrapPort] = host, port
+	cfg[tkafka.ConfVarKafkaFlushFrequency], cfg[tkafka.ConfVarKafkaRetryMax] = 10, 1
+	sh := shutdown.NewShutdownHandler()
+	defer sh.CancelFunc()
+	in := make(chan transport.Batch, 4)
+	written := make(chan *ordered_map.OrderedMap, 8)
+	statsChan := make(chan stats.Stat, 4096)
+	ts := tkafka.New(sh, written, statsChan, 1, []<-chan transport.Batch{in}, cfg)
+	b := tkafka.NewBatchFactory(cfg).NewBatch("")
+	for i, txn := range []string{"100", "101"} {
+		b.Add(&marshaller.MarshalledMessage{Operation: "INSERT", Table: "users", Json: []byte("{\"id\":" + txn + "}"), TimeBasedKey: txn + "-0", WalStart: uint64(1000 + i), Transaction: txn})
+	}
+	in <- b
+	done := make(chan struct{})
+	go func() { defer close(done); (*ts[0]).StartTransporting() }()
+	nw, stopped := 0, false
+	deadline := time.After(12 * time.Second)
+loop:
+	for {
+		select {
+		case m, ok := <-written:
+			if !ok {
+				written = nil
+				continue
+			}
+			if m != nil {
+				nw++
+			}
+			deadline = time.After(700 * time.Millisecond)
+		case <-sh.TerminateCtx.Done():
+			stopped = true
+			break loop
+		case <-deadline:
+			break loop
+		}
+	}
+	sh.CancelFunc()
+	select {
+	case <-done:
+	case <-time.After(8 * time.Second):
+	}
+	return fmt.Sprintf("written=%d stopped=%s", nw, b01(stopped))
+}
+
+// plumbing datestring <offsetHours>: utils.RealTime.DateString (what the S3 key's date parts are made of) with the
+// process's local zone set to UTC+offset, against the same instant rendered independently: year, two-digit month, day
+// and 24-hour hour, and yyyymmddhhmmss.
+func plumbingDateString(w []string) string {
+	off, _ := strconv.Atoi(w[2])
+	plumbZoneMu.Lock()
+	defer plumbZoneMu.Unlock()
+	saved := time.Local
+	time.Local = time.FixedZone("verif", off*3600)
+	defer func() { time.Local = saved }()
+	last := ""
+	for try := 0; try < 5; try++ {
+		t0 := time.Now()
+		y, mo, d, h, full := utils.RealTime{}.DateString()
+		t1 := time.Now()
+		for _, t := range []time.Time{t0, t1} {
+			t = t.In(time.Local)
+			two := func(n int) string { return fmt.Sprintf("%02d", n) }
+			ey, emo, ed, eh := strconv.Itoa(t.Year()), two(int(t.Month())), two(t.Day()), two(t.Hour())
+			efull := ey + emo + ed + eh + two(t.Minute()) + two(t.Second())
+			if y == ey && mo == emo && d == ed && h == eh && full == efull {
+				return "ok"
+			}
+			last = fmt.Sprintf("got %s/%s/%s/%s/%s want %s/%s/%s/%s/%s", y, mo, d, h, full, ey, emo, ed, eh, efull)
+		}
+	}
+	return last
+}
+
+var plumbZoneMu sync.Mutex
+
 func plumbingRun(c Case) ([]string, []string) {
 	outs := []string{}
 	for _, l := range c.Lines {
 		w := strings.Fields(l)
+		if len(w) == 3 && w[1] == "kafkaput" {
+			outs = append(outs, plumbingKafkaPut(w))
+			continue
+		}
+		if len(w) == 3 && w[1] == "datestring" {
+			outs = append(outs, strings.ReplaceAll(plumbingDateString(w), " ", "_"))
+			continue
+		}
 		if len(w) == 4 && w[1] == "ddreport" {
 			outs = append(outs, plumbingDDReport(w))
 			continue
@@ -551,6 +670,12 @@ func plumbingGen(r *Rng, tier string) Case {
 	ls := "-"
 	if len(list) > 0 {
 		ls = strings.Join(list, ",")
+	}
+	if r.Chance(12) {
+		return Case{[]string{fmt.Sprintf("plumbing datestring %d", r.Range(-11, 12))}}
+	}
+	if r.Chance(6) {
+		return Case{[]string{"plumbing kafkaput " + Pick(r, []string{"accept", "reject"})}}
 	}
 	if r.Chance(8) {
 		return Case{[]string{fmt.Sprintf("plumbing ddreport %d %d", r.Range(1, 3), r.Range(0, 3))}}
@@ -595,6 +720,18 @@ func plumbingMonitor(lines, outs []string, m *Model) []Violation {
 		}
 		if strings.HasPrefix(outs[i], "panic") {
 			vs = append(vs, Violation{"C17", "app.New panics on a configuration main.go accepts: " + l + " => " + outs[i], ""})
+			continue
+		}
+		if strings.HasPrefix(l, "plumbing kafkaput") {
+			if want != outs[i] {
+				vs = append(vs, Violation{"C14", "the Kafka sink as its factories build it (options → kafka.New, the repository's sarama producer configuration → a broker speaking the wire protocol): wanted " + want + ", observed " + outs[i] + " (" + l + "): a batch the broker rejected is reported written, or an accepted one is not, or the worker does not stop", ""})
+			}
+			continue
+		}
+		if strings.HasPrefix(l, "plumbing datestring") {
+			if want != outs[i] {
+				vs = append(vs, Violation{"C12", "the date parts the S3 key is built from are not year / two-digit month / day / 24-hour hour / yyyymmddhhmmss of the current time: " + outs[i] + " (" + l + ", local zone UTC+offset)", ""})
+			}
 			continue
 		}
 		if strings.HasPrefix(l, "plumbing ddreport") {
